@@ -174,6 +174,9 @@ def body(ctx, m):
     brief = lambda: "page=%r" % ({k: m[k] for k in ("id", "size", "reading_order", "version", "via")},) + " regions=%r" % (m["regions"],)
     pl = build_layout(m)
     x1 = ctx.must("export_raises", pl.to_pagexml_string, version=version)
+    # exporting does not change what is exported: a second export of the same object is the same document
+    x1b = ctx.must("export_raises", pl.to_pagexml_string, version=version)
+    ctx.check(strip_ts(x1) == strip_ts(x1b), "second_export_of_same_layout_differs", lambda: "%s\n---\n%s" % (x1[:2000], x1b[:2000]))
     l1 = ctx.must("import_raises", load, m, x1)
     order = expected_order(m)
     ctx.event("version:" + m["version"])
